@@ -11,6 +11,24 @@ SPECIES = ["A", "B_x", "C1"]
 
 
 def build_args(p):
+    """several reactions / rules in one model: the parts' constructor arguments merged in order (shared parameters declared once)"""
+    if p["kind"] != "multi":
+        return _build_one(p)
+    out = None
+    for q in p["parts"]:
+        a = _build_one(q)
+        if out is None:
+            out = a
+            continue
+        out["reactions"] += a["reactions"]
+        out["rules"] += a["rules"]
+        for nm, val in a["parameters"]:
+            if nm not in [x[0] for x in out["parameters"]]:
+                out["parameters"].append((nm, val))
+    return out
+
+
+def _build_one(p):
     species = list(SPECIES)
     params = [("kq", 0.75)]
     reactions, rules = [], []
